@@ -22,7 +22,7 @@
 (* what the reference answers (ReadsConsistent), in every reachable state.  *)
 (*                                                                         *)
 (* Result encoding of Term(x): a term >= 0, or C (ErrCompacted) or U        *)
-(* (ErrUnavailable). Entries(lo,hi): a sequence, or EC / EU.          *)
+(* (ErrUnavailable). Entries(lo,hi): a sequence of entries, or EC / EU.     *)
 (***************************************************************************)
 EXTENDS Integers, Sequences, FiniteSets, TLC, SequencesExt, FiniteSetsExt
 
@@ -170,12 +170,15 @@ Truncated(s, l) ==   \* files after "remove the existing entry and all the entri
             THEN SubSeq(s.files, l.f + 1, NF(s)) \o head    \* forgotten files stay on disk; the cut file becomes current
             ELSE head
 
-\* shadow of the real code's zero-fill (entrylog.go:139/163): FileWrapper.WriteSlice puts a 4-byte length
-\* prefix in front of the zero buffer, so the fill ends 4 bytes late. When it ends at the start of the data
-\* area (truncation into an earlier file, or into a FULL current file) the length prefix of the payload of
-\* the file's first slot is zeroed on disk. Slot 1 itself being rewritten repairs it.
+\* shadow of the real code's zero-fill after a truncation INTO AN EARLIER FILE (entrylog.go:163): the
+\* slots from the conflict slot to the end of the 1 MiB slot area are zeroed with FileWrapper.WriteSlice,
+\* which puts a 4-byte length prefix in front of the buffer, so the fill ends 4 bytes late: at
+\* logFileOffset+4. Those 4 bytes are the length prefix of the payload of the file's FIRST slot, which is
+\* thereby zeroed on disk. Slot 1 itself being rewritten (conflict at the file's first index) repairs it.
+\* (The same 4-byte overrun of a truncation inside the current file, entrylog.go:139, ends at most at
+\* byte 960004 of the slot area, which is unused: 30000 slots of 32 bytes in a 1 MiB area.)
 NewClob(s, l) ==
-  IF l.k >= 2 /\ l.k <= Len(s.files[l.f]) /\ (l.f < NF(s) \/ Len(s.files[l.f]) = FileCap)
+  IF l.k >= 2 /\ l.k <= Len(s.files[l.f]) /\ l.f < NF(s)
     THEN {s.files[l.f][1].i} ELSE {}
 
 FirstSlotIdx(fs) == {fs[j][1].i : j \in {jj \in 1..Len(fs) : fs[jj] # <<>>}}
